@@ -1,5 +1,5 @@
 #!/usr/bin/env python3
-"""check <Cxx> [--tier quick|thorough]   |   check --replay <replay.json>
+"""check <Cxx> [--tier quick|thorough|deep]   |   check --replay <replay.json>
 
 exit 0: every obligation generated from /repo's current tree was discharged
 exit 1: an obligation failed  (VIOLATION line printed, replay file written)
